@@ -46,6 +46,21 @@ def gen_cases(tier, seed):
                     yield c
 
 
+    # the application keeps ONE MemoryLocation and moves it along (its attributes are public): each request must announce and
+    # use the widths a fresh object with the current values would, also when a value has just crossed a width boundary
+    walks = [[(0x10, 4), (0xFFF0, 0xFF), (0x10000, 0x100), (0x10020, 0x20), (0x80, 1), (1 << 32, 0x10000), (5, 5)],
+             [(0xFFFFFF, 0xFFFF), (0x1000000, 0x10000), (0xFF, 0xFF), (0x100, 0x100), (0, 0)]]
+    for callid, blobs, pre, post in ((17, [], [], []), (18, [b'\xaa'], [], []), (19, [], [0], [0, 0, 0]), (19, [], [1], [0, 0, 0]), (20, [], [0xF201, 2, 1], [])):
+        for ca, cs in ((None, None), (None, 16), (24, None)):
+            for w in walks:
+                cfgv = list(cl.DEFAULT_CFG)
+                cfgv[cl.SRV_ADDR], cfgv[cl.SRV_SIZE] = (-1 if ca is None else ca), (-1 if cs is None else cs)
+                h = cl.H(cfgv)
+                for a, sz in w:
+                    h.call(callid, pre + [a, sz, 0, 0, 0, 0] + post, blobs, [])
+                yield h.case(5000, 'one memory location moved along / repeated')
+
+
 def worker_init():
     cl.setup()
 
@@ -59,6 +74,19 @@ def oracle(c, r):
         d = cl.parse_calls(r, 1)[0][0]
         if d['kind'] != 'ok' or d['sdata'] != EXPECT[c.line()]:
             return ('echo-decode', 'a correct echo in the announced widths gave %s %r, expected accepted with %r' % (d['kind'], d['sdata'] or d['err'], EXPECT[c.line()]))
+        return None
+    if c.tag.startswith('one memory location moved along'):
+        cfgv, ops = cl.case_ops(c)
+        calls = cl.parse_calls(r, len(ops))[0]
+        for i, (o, d) in enumerate(zip(ops, calls)):
+            _, callid, args, cb, reps = o
+            kind, val = isospec.expected(cfgv, callid, args, cb)
+            sent = [e[1] for e in d['events'] if e[0] == 'S']
+            if kind == 'send' and sent[:1] != [val]:
+                return ('moved-location-widths', 'call %d (address %#x, size %#x on the same MemoryLocation object) sent %r, a fresh object gives %s' % (
+                    i + 1, args[len(args) - 6 - (3 if callid == 19 else 0)], args[len(args) - 5 - (3 if callid == 19 else 0)], [x.hex() for x in sent], val.hex()))
+            if kind != 'send' and sent:
+                return ('moved-location-sent', 'call %d sent %r although the values have no encoding' % (i + 1, [x.hex() for x in sent]))
         return None
     return reqcommon.judge(c, r)
 
